@@ -366,6 +366,29 @@ class Oracle:
             return f.id
         return unparse(f)
 
+    def is_trace_wrapper(self, call: ast.Call, depth: int = 0) -> bool:
+        """the callee is a (new) logging helper: its whole body is calls of trace-like functions"""
+        if depth > 2:
+            return False
+        try:
+            targets = self.repo.resolve_call(call, self.fi)
+        except Exception:
+            return False
+        if len(targets) != 1:
+            return False
+        body = targets[0].node.body if isinstance(getattr(targets[0].node, "body", None), list) else None
+        if not body:
+            return False
+        for s in body:
+            if isinstance(s, ast.Expr) and isinstance(s.value, ast.Constant):
+                continue
+            if isinstance(s, ast.Expr) and isinstance(s.value, ast.Call):
+                cn = self.callee_name(s.value)
+                if cn in ("trace", "_trace", "log", "notrace") or Oracle(self.repo, targets[0], precise=self.precise).is_trace_wrapper(s.value, depth + 1):
+                    continue
+            return False
+        return True
+
     def raises(self, n: Node, handler_classes: list[str] | None = None) -> list[tuple[str, bool]]:
         out: list[tuple[str, bool]] = []
         a = n.ast
@@ -380,7 +403,9 @@ class Oracle:
             # evaluating the exception expression may itself raise
             return out
         if n.kind == "stmt" and isinstance(a, ast.Assert):
-            out.append(("AssertionError", True))
+            # an assertion states an internal invariant -- it is not an exit of the function (the statement
+            # vanishes under -O, so no behaviour may depend on it failing); its test may still raise via calls
+            pass
         if n.kind in ("withexit", "except"):
             return out
         out.extend(self._implicit(n))
@@ -395,6 +420,8 @@ class Oracle:
                     continue
                 cn = self.callee_name(x)
                 if cn in self.nonraising:
+                    continue
+                if self.is_trace_wrapper(x):
                     continue
                 b = getattr(__import__("builtins"), cn, None)
                 if (isinstance(b, type) and issubclass(b, BaseException)) or self.repo.is_subclass_name(cn, "Exception") is True and cn in self.repo.classes:
